@@ -370,3 +370,23 @@ def c20(a):
     c.assumptions = TRUSTED + ["hook TimeZone::__verif_repr (read-only, cfg jiff_verif)",
                                "the harness's tracking global allocator (records alloc/dealloc addresses while a program runs)"]
     return c.finish()
+
+
+@prop("C12")
+def c12(a):
+    c = Check("C12", a.tier, a.seed)
+    workdir("C12")
+    binary = build_harness()
+    if not a.replay:
+        c.add_mc(tlc_mc("MC_BigInt.tla", "MC_BigInt.cfg", os.path.join(workdir("C12", False), "mc"), workers=4))
+    drive_and_validate(c, a, binary, "c12", "Trace_Value.tla")
+    c.rule = ("span_build: sequences of 1..8 setters in every order with values inside, at and beyond each unit limit and of "
+              "both signs (after every step the ten getters and the sign are compared with the model: stored magnitude, one "
+              "sign for all units, refused beyond the limit); span_ops: negate, abs, checked_mul by factors around "
+              "limit/|v|, fieldwise equality, SignedDuration::try_from(Span); SignedDuration: checked/saturating add/sub of "
+              "every pool value with every limit value, mul/div by i32 factors incl. 0, -1, MIN/MAX (division checked "
+              "relationally), neg, unit views, from_<unit>, new(secs, nanos) with any i32 nanos, std Duration conversions, "
+              "Span::try_from, f64 conversions with the exact (mantissa, exponent) decomposition. All arithmetic is exact "
+              "BigInt arithmetic on the nanosecond count.")
+    c.assumptions = TRUSTED + ["the harness's f64 bit decomposition"]
+    return c.finish()
